@@ -20,7 +20,7 @@ def SamePattern (A B : Csr α) : Prop :=
 
 /-- steps that leave the symbolic state alone -/
 def Step.numericPhase : Step α → Bool
-  | .initNumeric | .apply _ | .update _ => true
+  | .initNumeric | .apply _ | .update _ | .doneNumeric | .applyIn _ => true
   | _ => false
 
 theorem SymEq.refl (st : PState α) : SymEq st st := ⟨rfl, rfl⟩
@@ -73,6 +73,8 @@ theorem initNumeric_symEq (c : Cfg α) (A : Csr α) (st st' : PState α) (h : in
       · cases h
       · cases h; exact ⟨rfl, hs.symm ▸ rfl⟩
   · cases h; exact SymEq.refl _
+  · cases h; exact SymEq.refl _
+  · cases h; exact SymEq.refl _
 
 /-- the heart of the refresh property: `init_numeric; apply` depends on the previous state only through its
     symbolic part — stale factors / stale inverted diagonals cannot survive an `init_numeric` -/
@@ -88,26 +90,101 @@ theorem initNumeric_apply_indep (tiny : α → Bool) (c : Cfg α) (A : Csr α) (
     · rfl
     · split
       · rfl
-      · simp only [Except.bind, applyStep, hk]
-  · simp only [Except.bind, applyStep, hk]
-  · simp only [Except.bind, applyStep, hk]
+      · simp only [Except.bind, applyStep, applyCore, hk]
+  · simp only [Except.bind, applyStep, applyCore, hk]
+  · simp only [Except.bind, applyStep, applyCore, hk]
   · -- polynomial
     split
     · rfl
     · split
       · rfl
-      · simp only [Except.bind, applyStep, hk]
+      · simp only [Except.bind, applyStep, applyCore, hk]
   · -- ilu
     cases hs : st'.iluS with
-    | none => simp only [Except.bind, applyStep, hk]; rw [h2, hs]
+    | none => simp only [Except.bind, applyStep, applyCore, hk]; rw [h2, hs]
     | some s =>
       have e : copyDataCsr s A st.iluN = copyDataCsr s A st'.iluN :=
         copy_resets_fill s (hok' s hs).1 A _ _ (hok s (h2.trans hs)).2 (hok' s hs).2
       simp only [e]
       split
       · rfl
-      · simp only [Except.bind, applyStep, hk]
-  · simp only [Except.bind, applyStep, hk]
+      · simp only [Except.bind, applyStep, applyCore, hk]
+  · simp only [Except.bind, applyStep, applyCore, hk]
+  · simp only [Except.bind, applyStep, applyCore, hk]
+  · simp only [Except.bind, applyStep, applyCore, hk]
+
+/-- the part of the symbolic state that the kind of the object actually uses -/
+def SymEqK (c : Cfg α) (st st' : PState α) : Prop :=
+  ((c.kind = .jacobi ∨ ∃ m, c.kind = .poly m) → st.invD.size = st'.invD.size) ∧
+  ((∃ p, c.kind = .ilu p) → st.iluS = st'.iluS)
+
+theorem SymEq.toK {c : Cfg α} {st st' : PState α} (h : SymEq st st') : SymEqK c st st' :=
+  ⟨fun _ => h.1, fun _ => h.2⟩
+
+/-- `initNumeric_apply_indep` with the kind-relative equivalence (an object of another kind never touches the
+    fields it does not use, so they may differ arbitrarily) -/
+theorem initNumeric_apply_indepK (tiny : α → Bool) (c : Cfg α) (A : Csr α) (st st' : PState α) (h : SymEqK c st st')
+    (hok : StOk st) (hok' : StOk st') (x : Array α) :
+    (initNumeric c A st).bind (fun s => applyStep tiny c A s x)
+      = (initNumeric c A st').bind (fun s => applyStep tiny c A s x) := by
+  unfold initNumeric
+  cases hk : c.kind
+  case jacobi =>
+    have h1 := h.1 (Or.inl hk)
+    simp only [h1]
+    split
+    · rfl
+    · split
+      · rfl
+      · simp only [Except.bind, applyStep, applyCore, hk]
+  case poly m =>
+    have h1 := h.1 (Or.inr ⟨m, hk⟩)
+    simp only [h1]
+    split
+    · rfl
+    · split
+      · rfl
+      · simp only [Except.bind, applyStep, applyCore, hk]
+  case ilu p =>
+    have h2 := h.2 ⟨p, hk⟩
+    simp only [h2]
+    cases hs : st'.iluS with
+    | none => simp only [Except.bind, applyStep, applyCore, hk]; rw [h2, hs]
+    | some s =>
+      have e : copyDataCsr s A st.iluN = copyDataCsr s A st'.iluN :=
+        copy_resets_fill s (hok' s hs).1 A _ _ (hok s (h2.trans hs)).2 (hok' s hs).2
+      simp only [e]
+      split
+      · rfl
+      · simp only [Except.bind, applyStep, applyCore, hk]
+  all_goals simp only [Except.bind, applyStep, applyCore, hk]
+
+/-- `init_symbolic` succeeds or fails independently of the previous state, and the part of the state the kind uses
+    is the same -/
+theorem initSymbolic_ok_indep (c : Cfg α) (A : Csr α) (st st' s : PState α) (h : initSymbolic c A st = .ok s) :
+    ∃ s', initSymbolic c A st' = .ok s' ∧ SymEqK c s s' := by
+  unfold initSymbolic at h ⊢
+  cases hk : c.kind <;> simp only [hk] at h ⊢
+  case ilu p =>
+    split at h
+    · cases h
+    · rename_i hsq
+      rw [if_neg hsq]
+      cases hs0 : setStructCsr A.rows A.rowPtr A.colInd with
+      | none => simp only [hs0] at h; cases h
+      | some s0 =>
+        simp only [hs0] at h ⊢
+        cases h
+        exact ⟨_, rfl, fun h' => by rcases h' with h' | ⟨m, h'⟩ <;> simp [hk] at h', fun _ => rfl⟩
+  case jacobi =>
+    cases h
+    exact ⟨_, rfl, fun _ => by simp, fun ⟨p, hp⟩ => by simp [hk] at hp⟩
+  case poly m =>
+    cases h
+    exact ⟨_, rfl, fun _ => by simp, fun ⟨p, hp⟩ => by simp [hk] at hp⟩
+  all_goals
+    cases h
+    exact ⟨_, rfl, fun h' => by rcases h' with h' | ⟨m, h'⟩ <;> simp [hk] at h', fun ⟨p, hp⟩ => by simp [hk] at hp⟩
 
 /-- `init_numeric` keeps the invariant (`copy_data` and the factorisation work in place on arrays of fixed size) -/
 theorem initNumeric_stOk (c : Cfg α) (A : Csr α) (st st' : PState α) (h : initNumeric c A st = .ok st')
@@ -117,6 +194,8 @@ theorem initNumeric_stOk (c : Cfg α) (A : Csr α) (st st' : PState α) (h : ini
   case sor => cases h; exact hok
   case ssor => cases h; exact hok
   case matrix => cases h; exact hok
+  case scale => cases h; exact hok
+  case diagonal => cases h; exact hok
   case ilu p =>
     cases hs : st.iluS with
     | none => simp only [hs] at h; cases h; exact hok
@@ -190,6 +269,14 @@ theorem runSteps_numericPhase (tiny : α → Bool) (c : Cfg α) (rest : List (St
       cases hn : applyStep tiny c A st x with
       | error e => exact Or.inl ⟨e, rfl⟩
       | ok y => exact runSteps_numericPhase tiny c rest hist hrest A st (y :: acc) hok
+    | doneNumeric =>
+      simp only [List.cons_append, runSteps]
+      exact runSteps_numericPhase tiny c rest hist hrest A st acc hok
+    | applyIn x =>
+      simp only [List.cons_append, runSteps]
+      cases hn : applyInStep tiny c A st x with
+      | error e => exact Or.inl ⟨e, rfl⟩
+      | ok y => exact runSteps_numericPhase tiny c rest hist hrest A st (y :: acc) hok
     | update v =>
       simp only [List.cons_append, runSteps]
       rcases runSteps_numericPhase tiny c rest hist hrest { A with val := v } st acc hok with
@@ -255,6 +342,201 @@ theorem history_refresh (tiny : α → Bool) (c : Cfg α) (A : Csr α) (hist : L
       | ok y =>
         rw [hb] at hrun
         simp only [Except.map] at hrun
+        cases hrun
+        exact ⟨y, by simp, rfl⟩
+
+/-- the matrix after the value updates of a history -/
+def matAfter (A : Csr α) : List (Step α) → Csr α
+  | [] => A
+  | .update v :: r => matAfter { A with val := v } r
+  | _ :: r => matAfter A r
+
+theorem matAfter_append : ∀ (h : List (Step α)) (B : Csr α) (r : List (Step α)),
+    matAfter B (h ++ r) = matAfter (matAfter B h) r
+  | [], _, _ => rfl
+  | s :: h, B, r => by
+    cases s <;> simp only [List.cons_append, matAfter] <;> exact matAfter_append h _ r
+
+/-- steps that only apply the preconditioner -/
+def Step.applyOnly : Step α → Bool
+  | .apply _ | .applyIn _ => true
+  | _ => false
+
+theorem matAfter_pattern : ∀ (h : List (Step α)) (A : Csr α), SamePattern (matAfter A h) A
+  | [], A => ⟨rfl, rfl, rfl, rfl⟩
+  | s :: r, A => by
+    cases s <;> simp only [matAfter]
+    all_goals first
+      | exact matAfter_pattern r A
+      | (obtain ⟨p1, p2, p3, p4⟩ := matAfter_pattern r { A with val := _ }; exact ⟨p1, p2, p3, p4⟩)
+
+theorem doneSymbolic_stOk (c : Cfg α) (st : PState α) (hok : StOk st) : StOk (doneSymbolic c st) := by
+  unfold doneSymbolic
+  cases c.kind <;> simp only
+  all_goals first
+    | exact hok
+    | (intro s hs; simp [PState.empty] at hs)
+
+/-- any stretch of steps either stops abnormally or hands over with the updated matrix and a state that still
+    satisfies the invariant; if the stretch contains no `init_symbolic` / `done_symbolic`, the symbolic state is kept -/
+theorem runSteps_phase (tiny : α → Bool) (c : Cfg α) (rest : List (Step α)) :
+    ∀ (hist : List (Step α)) (A : Csr α) (st : PState α) (acc : List (Array α)), StOk st →
+      (∃ e, runSteps tiny c A st (hist ++ rest) acc = .error e) ∨
+      ∃ st' acc', StOk st' ∧ ((∀ s ∈ hist, s.numericPhase = true) → SymEq st' st) ∧
+        runSteps tiny c A st (hist ++ rest) acc = runSteps tiny c (matAfter A hist) st' rest acc'
+  | [], A, st, acc, hok => Or.inr ⟨st, acc, hok, fun _ => SymEq.refl _, rfl⟩
+  | s :: hist, A, st, acc, hok => by
+    have keep : ∀ (B : Csr α) (st1 : PState α) (acc1 : List (Array α)), StOk st1 →
+        ((s.numericPhase = true) → SymEq st1 st) → matAfter A (s :: hist) = matAfter B hist →
+        runSteps tiny c A st (s :: hist ++ rest) acc = runSteps tiny c B st1 (hist ++ rest) acc1 →
+        (∃ e, runSteps tiny c A st (s :: hist ++ rest) acc = .error e) ∨
+        ∃ st' acc', StOk st' ∧ ((∀ t ∈ s :: hist, t.numericPhase = true) → SymEq st' st) ∧
+          runSteps tiny c A st (s :: hist ++ rest) acc = runSteps tiny c (matAfter A (s :: hist)) st' rest acc' := by
+      intro B st1 acc1 hok1 hsym hmat hrun
+      rcases runSteps_phase tiny c rest hist B st1 acc1 hok1 with ⟨e, he⟩ | ⟨st', acc', hk, hq, hr⟩
+      · exact Or.inl ⟨e, hrun.trans he⟩
+      · refine Or.inr ⟨st', acc', hk, ?_, ?_⟩
+        · intro hall
+          exact (hq (fun t ht => hall t (List.mem_cons_of_mem _ ht))).trans (hsym (hall s (List.mem_cons_self ..)))
+        · rw [hmat]; exact hrun.trans hr
+    cases s with
+    | initSymbolic =>
+      simp only [List.cons_append, runSteps]
+      cases hn : initSymbolic c A st with
+      | error e => exact Or.inl ⟨e, rfl⟩
+      | ok st1 =>
+        have := keep A st1 acc (initSymbolic_stOk c A st st1 hn hok) (fun h => by simp [Step.numericPhase] at h) rfl
+          (by simp only [List.cons_append, runSteps, hn])
+        simpa only [List.cons_append, runSteps, hn] using this
+    | initNumeric =>
+      simp only [List.cons_append, runSteps]
+      cases hn : initNumeric c A st with
+      | error e => exact Or.inl ⟨e, rfl⟩
+      | ok st1 =>
+        have := keep A st1 acc (initNumeric_stOk c A st st1 hn hok) (fun _ => initNumeric_symEq c A st st1 hn) rfl
+          (by simp only [List.cons_append, runSteps, hn])
+        simpa only [List.cons_append, runSteps, hn] using this
+    | apply x =>
+      simp only [List.cons_append, runSteps]
+      cases hn : applyStep tiny c A st x with
+      | error e => exact Or.inl ⟨e, rfl⟩
+      | ok y =>
+        have := keep A st (y :: acc) hok (fun _ => SymEq.refl _) rfl (by simp only [List.cons_append, runSteps, hn])
+        simpa only [List.cons_append, runSteps, hn] using this
+    | applyIn x =>
+      simp only [List.cons_append, runSteps]
+      cases hn : applyInStep tiny c A st x with
+      | error e => exact Or.inl ⟨e, rfl⟩
+      | ok y =>
+        have := keep A st (y :: acc) hok (fun _ => SymEq.refl _) rfl (by simp only [List.cons_append, runSteps, hn])
+        simpa only [List.cons_append, runSteps, hn] using this
+    | update v =>
+      have := keep { A with val := v } st acc hok (fun _ => SymEq.refl _) rfl (by simp only [List.cons_append, runSteps])
+      simpa only [List.cons_append, runSteps] using this
+    | done =>
+      have := keep A (doneSymbolic c st) acc (doneSymbolic_stOk c st hok) (fun h => by simp [Step.numericPhase] at h) rfl
+        (by simp only [List.cons_append, runSteps])
+      simpa only [List.cons_append, runSteps] using this
+    | doneNumeric =>
+      have := keep A st acc hok (fun _ => SymEq.refl _) rfl (by simp only [List.cons_append, runSteps])
+      simpa only [List.cons_append, runSteps] using this
+
+/-- a stretch of `apply` steps changes neither the matrix nor the state -/
+theorem runSteps_applyOnly (tiny : α → Bool) (c : Cfg α) (rest : List (Step α)) :
+    ∀ (tail : List (Step α)), (∀ s ∈ tail, s.applyOnly = true) → ∀ (A : Csr α) (st : PState α) (acc : List (Array α)),
+      (∃ e, runSteps tiny c A st (tail ++ rest) acc = .error e) ∨
+      ∃ acc', runSteps tiny c A st (tail ++ rest) acc = runSteps tiny c A st rest acc'
+  | [], _, A, st, acc => Or.inr ⟨acc, rfl⟩
+  | s :: tail, hall, A, st, acc => by
+    have hs := hall s (List.mem_cons_self ..)
+    have hrest : ∀ t ∈ tail, t.applyOnly = true := fun t ht => hall t (List.mem_cons_of_mem _ ht)
+    cases s with
+    | apply x =>
+      simp only [List.cons_append, runSteps]
+      cases hn : applyStep tiny c A st x with
+      | error e => exact Or.inl ⟨e, rfl⟩
+      | ok y => exact runSteps_applyOnly tiny c rest tail hrest A st (y :: acc)
+    | applyIn x =>
+      simp only [List.cons_append, runSteps]
+      cases hn : applyInStep tiny c A st x with
+      | error e => exact Or.inl ⟨e, rfl⟩
+      | ok y => exact runSteps_applyOnly tiny c rest tail hrest A st (y :: acc)
+    | initSymbolic => simp [Step.applyOnly] at hs
+    | initNumeric => simp [Step.applyOnly] at hs
+    | update v => simp [Step.applyOnly] at hs
+    | done => simp [Step.applyOnly] at hs
+    | doneNumeric => simp [Step.applyOnly] at hs
+
+/-- **history theorem.**  Take ANY history on one solver object of the form
+    `pre ++ init_symbolic :: mid ++ init_numeric :: tail ++ [apply x]`, where `pre` is arbitrary (earlier life of the
+    object, including `done` / re-initialisation and value changes), `mid` contains no `init_symbolic` / `done_symbolic`
+    (but any `init_numeric`, `done_numeric`, `apply`, value changes) and `tail` only applies — i.e. the last
+    `init_numeric` follows the last value change and no new `init_symbolic` was needed.  Then the last output is exactly
+    what a brand-new object returns for `x` on the CURRENT matrix `matAfter A (pre ++ init_symbolic :: mid)`. -/
+theorem history_full (tiny : α → Bool) (c : Cfg α) (A : Csr α) (pre mid tail : List (Step α))
+    (hmid : ∀ s ∈ mid, s.numericPhase = true) (htail : ∀ s ∈ tail, s.applyOnly = true) (x : Array α)
+    (outs : List (Array α))
+    (hrun : runSteps tiny c A PState.empty
+      (pre ++ (.initSymbolic :: (mid ++ (.initNumeric :: (tail ++ [.apply x]))))) [] = .ok outs) :
+    ∃ y, outs.getLast? = some y ∧
+      runSteps tiny c (matAfter A (pre ++ (.initSymbolic :: mid))) PState.empty
+        [.initSymbolic, .initNumeric, .apply x] [] = .ok [y] := by
+  have hempty : StOk (PState.empty : PState α) := fun s hs => by simp [PState.empty] at hs
+  have hmat : matAfter A (pre ++ (.initSymbolic :: mid)) = matAfter (matAfter A pre) mid := by
+    rw [matAfter_append]; rfl
+  rcases runSteps_phase tiny c _ pre A PState.empty [] hempty with ⟨e, he⟩ | ⟨st1, acc1, hok1, _, hr1⟩
+  · rw [he] at hrun; cases hrun
+  rw [hr1] at hrun
+  simp only [runSteps] at hrun
+  cases hsym : initSymbolic c (matAfter A pre) st1 with
+  | error e => rw [hsym] at hrun; cases hrun
+  | ok st2 =>
+    rw [hsym] at hrun
+    simp only at hrun
+    have hok2 := initSymbolic_stOk c _ st1 st2 hsym hok1
+    rcases runSteps_phase tiny c _ mid (matAfter A pre) st2 acc1 hok2 with ⟨e, he⟩ | ⟨st3, acc3, hok3, hq3, hr3⟩
+    · rw [he] at hrun; cases hrun
+    rw [hr3] at hrun
+    simp only [runSteps] at hrun
+    rw [← hmat] at hrun
+    generalize hB : matAfter A (pre ++ (.initSymbolic :: mid)) = B at hrun ⊢
+    cases hnum : initNumeric c B st3 with
+    | error e => rw [hnum] at hrun; cases hrun
+    | ok st4 =>
+      rw [hnum] at hrun
+      simp only at hrun
+      rcases runSteps_applyOnly tiny c [.apply x] tail htail B st4 acc3 with ⟨e, he⟩ | ⟨acc4, hr4⟩
+      · rw [he] at hrun; cases hrun
+      rw [hr4] at hrun
+      simp only [runSteps] at hrun
+      -- the fresh object on the current matrix
+      have hpatB : SamePattern B (matAfter A pre) := by
+        rw [← hB, hmat]; exact matAfter_pattern mid _
+      obtain ⟨st0, hs0, hk0⟩ := initSymbolic_ok_indep c (matAfter A pre) st1 PState.empty st2 hsym
+      have hs0' : initSymbolic c B (PState.empty : PState α) = .ok st0 := by
+        rw [initSymbolic_pattern c hpatB]; exact hs0
+      have hok0 : StOk st0 := initSymbolic_stOk c _ _ st0 hs0 hempty
+      have hK : SymEqK c st3 st0 :=
+        ⟨fun h => ((hq3 hmid).1).trans (hk0.1 h), fun h => ((hq3 hmid).2).trans (hk0.2 h)⟩
+      have hind := initNumeric_apply_indepK tiny c B st3 st0 hK hok3 hok0 x
+      rw [hnum] at hind
+      have hind' : applyStep tiny c B st4 x = (initNumeric c B st0).bind (fun s => applyStep tiny c B s x) := hind
+      have hfresh : runSteps tiny c B PState.empty [.initSymbolic, .initNumeric, .apply x] []
+          = ((initNumeric c B st0).bind (fun s => applyStep tiny c B s x)).map (fun y => [y]) := by
+        simp only [runSteps, hs0']
+        cases initNumeric c B st0 with
+        | error e => rfl
+        | ok s =>
+          simp only [Except.bind]
+          cases applyStep tiny c B s x with
+          | error e => rfl
+          | ok y => rfl
+      rw [hfresh, ← hind']
+      cases hap : applyStep tiny c B st4 x with
+      | error e => rw [hap] at hrun; cases hrun
+      | ok y =>
+        rw [hap] at hrun
+        simp only at hrun
         cases hrun
         exact ⟨y, by simp, rfl⟩
 
